@@ -157,6 +157,21 @@ def run(chk):
             flabels.append("%s(%s, %s)" % (t, a[:14], b[:14]))
         fcases.append("ctor %s L( )" % hx(t))
         flabels.append("%s()" % t)
+    # the regular-expression built-ins on patterns whose groups may take no part in a match, match the empty string, are
+    # named, nested or malformed, with replacements that refer to groups that exist, do not exist or did not match
+    rpats = ["a(b)?c", "(a)|(b)", "(x)*", "()", "(a)(b)?", "(?:a)(b)?", "(?P<n>a)?b", "^$", "a*", "(", "[", "\\", "(?i)A", ".", "\\d+",
+             "(a|b)*c", "(a)?(b)?(c)?", "((a)|(b))+", "(?P<x>b)|c", "a{2,}", "(a)\\1", "\\b", "é(€)?", "(?s).", "x*?", "(a)(?:b)?(c)?"]
+    rsubj = ["", "ac", "abc", "b", "aaa", "héllo€", "c", "aXc", "é", "ab ab"]
+    rrepl = ["", "$1", "$2x", "${n}", "$", "$0$0", "$9", "\\1", "${", "$x$1"]
+    for pat in rpats:
+        for sub in rsubj:
+            for f in ["matches", "matchCaptures"]:
+                fcases.append("func %s %s L( %s )" % (hx(f), vs(sub), vs(pat)))
+                flabels.append("%s this=%r (%r)" % (f, sub, pat))
+            for rep in rrepl:
+                for f in ["matchReplace", "matchReplaceOnce"]:
+                    fcases.append("func %s %s L( %s %s )" % (hx(f), vs(sub), vs(pat), vs(rep)))
+                    flabels.append("%s this=%r (%r, %r)" % (f, sub, pat, rep))
     for prof in ("debug", "release"):
         fimpl = run_impl(fcases, prof, isolate=True)
         for lab, c, r in zip(flabels, fcases, fimpl):
@@ -164,7 +179,7 @@ def run(chk):
                 chk.violation("a built-in panics / aborts / does not return on an argument shape (%s build)" % prof,
                               dict(case=c, label=lab, impl=r, profile=prof))
     chk.stream("%d built-in functions x receiver x argument tuples from a %d-value boundary pool (arity 0..1 with every receiver, "
-               "arity 2 %s, arity 3..4 sampled); %d constructors" % (len(FUNCS), len(POOL), "sampled" if quick else "exhaustive",
+               "arity 2 %s, arity 3..4 sampled); the regular-expression built-ins on 26 patterns x 10 subjects x 10 replacements; %d constructors" % (len(FUNCS), len(POOL), "sampled" if quick else "exhaustive",
                                                                     len(CTORS)), 2 * len(fcases), len(set(fcases)), exhaustive=False)
     chk.sample(dict(label=flabels[100], impl=fimpl[100]))
     # operators on the pool through the VM
